@@ -262,6 +262,30 @@ struct TwinEnv : Family {
 				std::vector<uint8_t> listing;
 				must(callLib(plan, [&] { Archive::VolFile vf(outp); for (size_t i = 0; i < vf.GetCount(); ++i) { std::string n = vf.GetName(i); listing.insert(listing.end(), n.begin(), n.end()); listing.push_back(0); ref::putU32(listing, vf.GetSize(i)); ref::putU16(listing, static_cast<uint16_t>(vf.GetCompressionCode(i))); } }, &what), "listing the written volume");
 				out[key + ":vol-listing"] = listing;
+				// by-name queries on ONE live archive object; the order in which independent queries arrive is environment (each answer is
+				// a function of the archive and the name asked for, not of what was asked before)
+				{
+					std::vector<std::string> asks;
+					for (auto& in : ins) asks.push_back(in.name);
+					for (auto& l : plan.world) if (l.verb == "file") { std::string n = unquoteToken(l.get("name")); bool have = false; for (auto& a : asks) if (a == n) have = true; if (!have) asks.push_back(n); }
+					Rng qr(e.perm ^ 0x9e3779b97f4a7c15ull);
+					for (size_t i = asks.size(); i > 1; --i) std::swap(asks[i - 1], asks[qr.below(i)]);
+					must(callLib(plan, [&] {
+						Archive::VolFile vf(outp);
+						Archive::ArchiveFile& af = vf;
+						for (auto& n : asks) {
+							std::vector<uint8_t> ans;
+							bool has = af.Contains(n);
+							ans.push_back(has ? 1 : 0);
+							try {
+								size_t idx = af.GetIndex(n);
+								ref::putU32(ans, static_cast<uint32_t>(idx));
+								if (vf.GetCompressionCode(idx) == Archive::CompressionType::Uncompressed) { auto st = af.OpenStream(n); std::vector<uint8_t> b(static_cast<size_t>(st->Length())); if (!b.empty()) st->Read(b.data(), b.size()); ans.insert(ans.end(), b.begin(), b.end()); }
+							} catch (const std::runtime_error&) { ans.push_back(0xee); }
+							out[key + ":vol-q:" + n] = ans;
+						}
+					}, &what), "by-name queries");
+				}
 			} else if (v == "clm") {
 				std::vector<std::string> list;
 				std::string dir = "cin" + std::to_string(oi);
